@@ -108,6 +108,11 @@ def run(ctx):
              what="destination names that look like temporary names (safe123, safe2023-q4.csv, safe, safe*), pattern "
                   "characters, sub-directories, '', '.', '..', a directory, a file as parent, 255/256-byte names, in a tree "
                   "with look-alike files that must stay untouched")
+    ctx.diff(area="collide", driver="drv_c14", n={"quick": 60, "thorough": 1200}, theorem=thm, timeout=300,
+             what="REAL name collisions: crypto/rand.Reader (public stdlib variable, the only seam in front of xmath/rand's "
+                  "crypto source) is pinned so that CreateTemp draws names the harness created beforehand: k = 0,1,2,3,5,"
+                  "999,1000 existing candidates must be skipped untouched (1000: ErrExist after 1000 opens); selfcollide = "
+                  "the excluded case of full_dest_old_or_new made real (absent destination safe123, every draw 123)")
     ctx.diff(area="wf", driver="drv_c14", n={"quick": 320, "thorough": 14000}, theorem=thm, timeout=300,
              what="in-process WriteFileWithMode; mid = temporary file size seen from the callback (bufio flush points)")
     # ---- strace streams
